@@ -495,6 +495,10 @@ class _Stream:
     def recv(self, n):
         if self.pos >= len(self.data):
             return b""
+        if self.rng.random() < 0.15 and not getattr(self, "_just_blocked", False):
+            self._just_blocked = True
+            raise BlockingIOError  # nothing there yet: the library waits (with a deadline) and asks again
+        self._just_blocked = False
         k = max(1, min(n, self.rng.choice((1, 2, 7, 100, n))))
         out = self.data[self.pos:self.pos + k]
         self.pos += len(out)
@@ -656,10 +660,13 @@ def _run_via_query(ctx, rng, zname, relativize, z, before, ref, key, q, kind, ms
         stream += struct.pack("!H", len(w)) + w
     fake = _Stream(bytes(stream), rng)
     err = None
+    deadlines = []  # the expiration handed to every wait: the earlier of (message start + timeout) and (transfer start + lifetime)
+    t_begin = None
     try:
         with swap_attr(dns.query, "make_socket", lambda *a, **k: fake), swap_attr(dns.query, "_connect", lambda *a, **k: None), \
-                swap_attr(dns.query, "_wait_for", lambda *a, **k: None):
+                swap_attr(dns.query, "_wait_for", lambda fd, r, w, x, expiration: deadlines.append(expiration)):
             with core.case_guard(20):
+                t_begin = dns.query.time.time()
                 dns.query.inbound_xfr("192.0.2.1", z, query=q, timeout=5, lifetime=30)
     except core.CaseTimeout:
         ctx.violation("transfer-loop-did-not-finish:tcp", "", case)
@@ -675,6 +682,14 @@ def _run_via_query(ctx, rng, zname, relativize, z, before, ref, key, q, kind, ms
     if fresh_zone is not None:
         async_twin(ctx, rng, fresh_zone, q, [], bytes(stream), dns.query.UDPMode.NEVER, (type(err).__name__ if err else "ok", after[0], 1), dict(case, twin="async"))
     ctx.seen(("via-query", kind, zname, sign, last_unsigned, type(err).__name__ if err else "ok", ref[0]))
+    if deadlines and t_begin is not None:
+        # timeout=5 bounds every message, lifetime=30 the whole transfer: a wait never gets more than the EARLIER of the two
+        ctx.count("mon.transfer_wait_deadlines", len(deadlines))
+        t_end = dns.query.time.time()
+        worst = max((d for d in deadlines if d is not None), default=None)
+        if any(d is None for d in deadlines) or worst > t_end + 5.5:
+            ctx.violation("transfer-wait-allowed-to-run-past-the-per-message-timeout", f"timeout=5, lifetime=30: a wait was given until +{'forever' if worst is None or any(d is None for d in deadlines) else round(worst - t_begin, 2)} s", case)
+            return
     if bytes(fake.written) != struct.pack("!H", len(qw)) + qw and not sign:
         ctx.violation("inbound_xfr-request-not-framed-as-rendered", "", case)
     if err is not None:
